@@ -16,7 +16,12 @@ def parseAct : List String → Option Act
 
 def parseMsg (w : String) : Option Msg :=
   match w.splitOn "," with
-  | url :: wf :: ok :: act => do some ⟨url.toList, ← bool? wf, ← bool? ok, ← parseAct act⟩
+  | url :: wf :: ok :: act =>
+    -- `outer>inner`: a MsgExecLegacyContent and the type url of the content it wraps
+    match url.splitOn ">" with
+    | [u] => do some ⟨u.toList, ← bool? wf, ← bool? ok, ← parseAct act, []⟩
+    | [u, i] => do some ⟨u.toList, ← bool? wf, ← bool? ok, ← parseAct act, i.toList⟩
+    | _ => none
   | _ => none
 
 def parseOpt (w : String) : Option (Opt × Nat) :=
